@@ -33,9 +33,24 @@ def recogniser(fid):
     return deco
 
 
+_ACTIVE = None
+
+
+def active_ids():
+    """Only findings whose status is `known` have a live recogniser; recognisers of repaired (`fixed`) findings are
+    kept in this file for the record but never consulted, so they can neither suppress nor pre-empt anything."""
+    global _ACTIVE
+    if _ACTIVE is None:
+        _ACTIVE = {f["id"] for f in load_findings() if f["status"] == "known"}
+    return _ACTIVE
+
+
 def recognise(run, v, entry, exc):
     """Return the id of the known finding that explains violation v, or None."""
+    act = active_ids()
     for fid, f in RECOGNISERS.items():
+        if fid not in act:
+            continue
         try:
             if f(run, v, entry, exc):
                 return fid
